@@ -323,6 +323,8 @@ func c06Run(c *core.C) {
 			}
 		}
 		c.Count("dangling_string_evaluations", 3*7*7)
+		// the same operators reached through Authorizer.Query with literals the authorizer has not interned
+		authorizerQueriesWithFreshLiterals(c)
 		c.Sample(map[string]any{"kind": "unary table + malformed sequences + stack depths"})
 	case c.Idx == ast.NumBinary+1:
 		for _, op := range []int{ast.BAdd, ast.BSub, ast.BMul, ast.BDiv} {
